@@ -34,7 +34,15 @@ Theorem c05_cut_exact : forall tol cmp pkts fs k evs fuel, frames compress P cmp
   (length pkts < fuel)%nat ->
   recv_all decompress P fuel tol evs (nfirst k (concat fs)) [] = (firstn (whole_before k fs) pkts, false).
 Proof. intros. now apply (recv_all_cut_exact compress decompress zlib_roundtrip P Hhdr Hchunk tol cmp pkts fs k evs []). Qed.
+
+(* the two halves composed: every packet sequence sent through a transport that splits the writes arbitrarily and read through one
+   that splits, coalesces and interrupts the reads arbitrarily arrives as exactly the same sequence *)
+Theorem c05_end_to_end : forall tol cmp pkts fs wevs revs fuel, frames compress P cmp pkts = Ok fs -> benign_w wevs -> benign_r tol revs ->
+  (length pkts < fuel)%nat ->
+  exists wire, send_all compress P cmp wevs pkts [] = Ok (true, wire) /\ recv_all decompress P fuel tol revs wire [] = (pkts, false).
+Proof. exact (end_to_end compress decompress zlib_roundtrip P Hhdr Hchunk). Qed.
 End C05.
+Print Assumptions c05_end_to_end.
 Print Assumptions c05_write_complete.
 Print Assumptions c05_delivery.
 Print Assumptions c05_fault_prefix.
